@@ -9,7 +9,10 @@ package cluster
 // from coordinator.go by /verif/overlaygen/c26_pairs.py) and a fake clock in
 // internal/cluster/security. Same timelines and oracle as the sequence-level part
 // (kit/replaytl): each signed request accepted at most once, never outside the
-// tolerance window.
+// tolerance window. The timelines additionally interleave cluster-membership traffic
+// for the senders (authenticated leave notifications through the real
+// handleLeaveNotify, re-joins, replayed leaves); the oracle is unchanged - whatever
+// the membership of the sender does, a signed request is single-use while fresh.
 
 import (
 	"fmt"
@@ -55,12 +58,38 @@ func c26hSign(m *replaytl.Msg) {
 // auth + replay checks. No raft node and no replication sender, so a request that
 // PASSES auth and replay protection is answered "raft_unavailable" / "not configured
 // as a writer", and one that fails either is answered "auth" / "authentication failed".
+//
+// The registry holds the local node and both senders, so the coordinator can also
+// process the cluster-membership traffic that is interleaved with the protected
+// requests (authenticated leave notifications, re-joins after a restart).
 func c26hNewCoordinator() *Coordinator {
+	local := NewNode("local-node", "local-node", RoleWriter, c26hCluster)
+	reg := NewRegistry(&RegistryConfig{LocalNode: local, Logger: zerolog.Nop()})
+	for _, id := range []string{"node-a", "node-b"} {
+		_ = reg.Register(NewNode(id, id, RoleWriter, c26hCluster))
+	}
 	return &Coordinator{
 		cfg:        &config.ClusterConfig{SharedSecret: c26hSecret, ClusterName: c26hCluster},
 		logger:     zerolog.Nop(),
-		localNode:  &Node{ID: "local-node"},
+		localNode:  local,
+		registry:   reg,
 		nonceCache: verifC26NewCoordinatorNonceCache(),
+	}
+}
+
+// c26hMembership feeds one membership event to the real coordinator: a leave
+// notification goes through handleLeaveNotify (HMAC + timestamp validated there; a
+// stale or replayed-too-late one is simply ignored by it), a join re-registers the
+// node as a restart does.
+func c26hMembership(c *Coordinator, ev replaytl.Event) {
+	switch ev.Kind {
+	case "leave":
+		c.handleLeaveNotify(&protocol.LeaveNotify{
+			NodeID: ev.Node, Reason: "graceful shutdown", AuthNonce: ev.LeaveNonce, AuthTimestamp: ev.LeaveTS,
+			AuthHMAC: security.ComputeHMAC(c26hSecret, security.MsgTypeLeave, ev.LeaveNonce, ev.Node, c26hCluster, ev.LeaveTS),
+		})
+	case "join":
+		_ = c.registry.Register(NewNode(ev.Node, ev.Node, RoleWriter, c26hCluster))
 	}
 }
 
@@ -112,6 +141,7 @@ func TestVerifC26_Handlers(t *testing.T) {
 	excl := verifkit.Excluded(kfC26TTLh)
 	rapid.Check(t, func(t *rapid.T) {
 		tl := replaytl.Gen(t, sites, nil)
+		tl.AddMembership(t)
 		for _, m := range tl.Msgs {
 			c26hSign(m)
 		}
@@ -125,7 +155,7 @@ func TestVerifC26_Handlers(t *testing.T) {
 					herr = err
 				}
 				return ok
-			})
+			}, func(ev replaytl.Event) { c26hMembership(c, ev) })
 		if herr != nil {
 			t.Fatalf("harness: %v", herr)
 		}
@@ -137,6 +167,9 @@ func TestVerifC26_Handlers(t *testing.T) {
 		}
 		verifkit.Eval()
 		verifkit.Class("handler/" + tl.Site.Type)
+		if res.Membership > 0 {
+			verifkit.Class("handler/with-membership-traffic")
+		}
 		if res.NonTrivial {
 			verifkit.NonTrivial("handler|" + strings.Join(res.Log, "|"))
 			verifkit.Class("handler/replay-inside-window/" + tl.Site.Type)
